@@ -34,6 +34,7 @@ CONSTANTS
     BurstSizes,                              \* sizes of application message bursts offered by Next
     PskIds,                                  \* external PSK identifiers
     PskValues,                               \* values a party may hold for a PSK id ("none" = does not hold it)
+    MaxSucc,                                 \* bound on successor groups (re-init / branch) created in a behaviour
     JitterChoices,                           \* max_epoch_jitter settings of the observer (99999 = not configured)
     Deviations                               \* named deviations of mls-rs from the properties that the model follows (known findings)
 
@@ -50,12 +51,14 @@ VARIABLES
     apps,       \* Seq(application message burst); id = index
     det,        \* [Parties -> set of commit ids] detached commits (CommitSecrets held by the application)
     pskStore,   \* [Parties -> [PskIds -> PskValues]] the application's PSK store of each party (constant per behaviour)
+    succ,       \* successor groups created by re-init or branch (resumption.rs): sequence of
+                \* [kind, by, ks, members, kp, gid, ext, joined]
     obs,        \* the external observer (ExternalGroup): [st, epoch, ks, tree, ext, cache, frozen]
     hist,       \* history of steps for replay (hidden by VIEW)
     haux        \* per step: projection of the acting party's repository and storage after the step
 
-vars == <<grp, zomb, kps, props, commits, winner, opt, repo, store, apps, det, pskStore, obs, hist, haux>>
-view == <<grp, zomb, kps, props, commits, winner, opt, repo, store, apps, det, pskStore, obs>>
+vars == <<grp, zomb, kps, props, commits, winner, opt, repo, store, apps, det, pskStore, obs, succ, hist, haux>>
+view == <<grp, zomb, kps, props, commits, winner, opt, repo, store, apps, det, pskStore, obs, succ>>
 
 Str(i) == ToString(i)
 KpLeafKey(i) == "kpL" \o Str(i)
@@ -381,6 +384,7 @@ Init ==
     /\ det = [p \in Parties |-> {}]
     /\ pskStore \in [Parties -> [PskIds -> PskValues]]
     /\ obs = [st |-> "off"]
+    /\ succ = <<>>
     /\ hist = <<>>
     /\ haux = <<>>
 
@@ -966,6 +970,74 @@ MemberNext ==
     \/ \E p \in Parties : Load(p)
     \/ \E p \in Parties : \E n \in det[p] : ApplyDetached(p, n)
 
+-----------------------------------------------------------------------------
+(* Successor groups (mls-rs/src/group/resumption.rs).  After a re-init     *)
+(* commit the old group is frozen (above); any frozen member may create    *)
+(* the successor from fresh key packages of the others, and it exists      *)
+(* exactly when its members are the old members (same identities, whatever *)
+(* the shape of the old tree).  Any member may branch a sub-group from     *)
+(* key packages of a subset of the members.  Both inject the resumption    *)
+(* secret of the old epoch: joining needs the old group in that very epoch *)
+(* (same epoch secret), through the matching API.                           *)
+IsSuccKp(i) == "succ" \in DOMAIN kps[i]
+SuccKps == {i \in 1..Len(kps) : IsSuccKp(i)}
+
+\* a key package for a successor group; members may issue them (kept out of the old group's own adds)
+GenSuccKeyPackage(p) ==
+    /\ "succ" \in Features /\ Len(kps) < MaxKps
+    \* one package per party that no successor refers to yet
+    /\ ~\E i \in SuccKps : kps[i].owner = p /\ ~\E s \in 1..Len(succ) : i \in Range(succ[s].kp)
+    /\ kps' = Append(kps, [owner |-> p, cv |-> 0, used |-> TRUE, bad |-> "", succ |-> TRUE])
+    /\ UNCHANGED <<grp, zomb, props, commits, winner, opt, repo, store, apps, det, succ>>
+    /\ Record("GenKeyPackage", p, [kp |-> Len(kps) + 1, bad |-> ""], "ok", [x |-> 0])
+
+SuccRest == UNCHANGED <<grp, zomb, kps, props, commits, winner, opt, repo, store, apps, det>>
+
+SuccGid(kind, n) == IF kind = "reinit" THEN "next" ELSE "branch"
+
+\* ReinitClient::commit / Group::branch by p with the key packages S (a set of key package ids)
+SuccCreate(kind, p, S) ==
+    LET g == grp[p]
+        owners == {kps[i].owner : i \in S}
+        old == Members(g.tree)
+        dup == \E i, j \in S : i # j /\ kps[i].owner = kps[j].owner
+        args == [kind |-> kind, kps |-> SetToSortedSeq(S)]
+        res == IF kind = "reinit" /\ ~g.frozen THEN "err:no-reinit"
+               ELSE IF dup \/ p \in owners THEN "err:rule:duplicate"
+               ELSE IF kind = "reinit" /\ owners \cup {p} # old THEN "err:not-subgroup"
+               ELSE IF kind = "branch" /\ ~(owners \subseteq old) THEN "err:not-subgroup"
+               ELSE "ok"
+        rec == [kind |-> kind, by |-> p, ks |-> g.ks, members |-> owners \cup {p},
+                kp |-> [q \in owners |-> CHOOSE i \in S : kps[i].owner = q],
+                ext |-> IF kind = "reinit" THEN 0 ELSE g.ext, joined |-> {}]
+    IN
+    /\ "succ" \in Features /\ HasGroup(p) /\ kind \in {"reinit", "branch"} /\ S \subseteq SuccKps /\ Len(succ) < MaxSucc
+    /\ succ' = IF res = "ok" THEN Append(succ, rec) ELSE succ
+    /\ SuccRest
+    /\ Record("SuccCreate", p, args, res,
+              IF res = "ok" THEN [succ |-> Len(succ) + 1, members |-> rec.members, ext |-> rec.ext] ELSE [x |-> 0])
+
+\* q tries to join successor s through ReinitClient::join ("reinit"), Group::join_subgroup ("branch") or,
+\* without any old state, Client::join_group ("plain")
+SuccJoin(q, s, how) ==
+    LET sg == succ[s]
+        res == IF how = "plain" THEN "err:succ"
+               ELSE IF how = "reinit" /\ ~grp[q].frozen THEN "err:no-reinit"
+               ELSE IF how = sg.kind /\ grp[q].ks = sg.ks THEN "ok"
+               ELSE "err:succ"
+    IN
+    /\ "succ" \in Features /\ s \in 1..Len(succ) /\ q \in DOMAIN sg.kp /\ how \in {"reinit", "branch", "plain"}
+    /\ (how = "plain" \/ HasGroup(q))
+    /\ succ' = IF res = "ok" THEN [succ EXCEPT ![s].joined = @ \cup {q}] ELSE succ
+    /\ SuccRest
+    /\ Record("SuccJoin", q, [succ |-> s, how |-> how, kp |-> sg.kp[q]], res,
+              IF res = "ok" THEN [members |-> sg.members, ext |-> sg.ext] ELSE [x |-> 0])
+
+SuccNext ==
+    \/ \E p \in Parties : GenSuccKeyPackage(p)
+    \/ \E p \in Parties : \E kind \in {"reinit", "branch"} : \E S \in SUBSET SuccKps : SuccCreate(kind, p, S)
+    \/ \E q \in Parties : \E s \in 1..Len(succ) : \E how \in {"reinit", "branch", "plain"} : SuccJoin(q, s, how)
+
 ObsNext ==
     \/ \E p \in Parties : ObsJoin(p)
     \/ \E j \in 1..Len(props) : ObsDeliverProposal(j)
@@ -973,7 +1045,7 @@ ObsNext ==
     \/ \E a \in 1..Len(apps) : \E gen \in apps[a].lo..apps[a].hi : ObsDeliverApp(a, gen)
     \/ ObsSnapshotRestore
 
-Next == (MemberNext /\ UNCHANGED obs) \/ ObsNext
+Next == (MemberNext /\ UNCHANGED <<obs, succ>>) \/ (ObsNext /\ UNCHANGED succ) \/ (SuccNext /\ UNCHANGED obs)
 
 \* the acting party's repository / storage after the step (needs the primed variables, hence a
 \* conjunct evaluated after Next)
@@ -1010,6 +1082,22 @@ ObserverTracks ==
                 /\ grp[p].epoch = obs.epoch /\ grp[p].tree = obs.tree /\ grp[p].ext = obs.ext
         /\ obs.epoch = ChainLenOf(obs.ks)
         /\ StructurallyValid(obs.tree)
+
+\* C17: a re-init successor has exactly the old members, a branch a subset; whoever joined one held the old
+\* group in the epoch it was created from (same epoch secret: it knows the resumption secret)
+SuccessorsLegal ==
+    \A s \in 1..Len(succ) :
+        LET sg == succ[s]  n == sg.ks IN
+        \* the tree of the epoch the successor was created from: that of any member still in it, else unknown
+        /\ \A p \in Parties : (HasGroup(p) /\ grp[p].ks = sg.ks) =>
+                /\ (sg.kind = "reinit" => (sg.members = Members(grp[p].tree) /\ grp[p].frozen))
+                /\ (sg.kind = "branch" => sg.members \subseteq Members(grp[p].tree))
+        /\ sg.joined \subseteq (sg.members \ {sg.by})
+
+\* C17: once a re-init is committed the old group never changes epoch again
+FrozenNeverAdvances ==
+    [][\A p \in Parties : (HasGroup(p) /\ grp[p].frozen) =>
+            (grp'[p].st = "member" => (grp'[p].epoch <= grp[p].epoch))]_vars
 
 \* C01: a member's epoch is the length of the chosen commit chain behind its secret
 RECURSIVE ChainLen(_)
